@@ -50,6 +50,11 @@ type modeState[V any] struct {
 	hintSlotEnd  bool
 	hintIndex    *int
 	hintFreshKey bool
+	hintCat      bool
+	nextKeys     []V
+	nextVals     []V
+	tied         bool             // the value / key generators draw rank-equal distinct values (values:tied)
+	tiedVal      func(r *rng) V   // a value from a small domain in which distinct Go values rank Equal (nil: none)
 	sizeBias     []int
 
 	queries    []qrec
@@ -512,6 +517,8 @@ func (s *seqRunner[V]) tryMacro() bool {
 		ok = s.macroSortSlice()
 	case "bulkvals":
 		ok = s.macroBulkVals()
+	case "tiedvalues":
+		ok = s.macroTiedValues()
 	default:
 		if s.assocMacro != nil {
 			ok = s.assocMacro(name)
@@ -1256,16 +1263,16 @@ func (s *seqRunner[V]) macroSortSlice() bool {
 // ---------- per-case configuration ----------
 
 var macroTable = map[string][]weighted{
-	"C01": {{"requery", 8}, {"aliasprobe", 3}, {"ascbuild", 1}, {"nilcall", 1}, {"bulkvals", 2}},
-	"C02": {{"requery", 3}, {"aliasprobe", 3}, {"ascbuild", 2}, {"nilcall", 1}, {"limcall", 2}, {"bulkvals", 4}},
-	"C03": {{"requery", 2}, {"bulkkeys", 6}, {"aliasprobe", 2}, {"assocwrite", 2}},
-	"C09": {{"sortslice", 7}, {"requery", 1}},
+	"C01": {{"tiedvalues", 2}, {"requery", 8}, {"aliasprobe", 3}, {"ascbuild", 1}, {"nilcall", 1}, {"bulkvals", 2}},
+	"C02": {{"tiedvalues", 4}, {"requery", 3}, {"aliasprobe", 3}, {"ascbuild", 2}, {"nilcall", 1}, {"limcall", 2}, {"bulkvals", 4}},
+	"C03": {{"tiedvalues", 4}, {"requery", 2}, {"bulkkeys", 6}, {"aliasprobe", 2}, {"assocwrite", 2}},
+	"C09": {{"tiedvalues", 7}, {"sortslice", 7}, {"requery", 1}},
 	"C13": {{"requery", 4}, {"aliasprobe", 2}},
-	"C14": {{"requery", 2}, {"bulkkeys", 7}, {"aliasprobe", 2}, {"assocwrite", 2}},
-	"C15": {{"nilcall", 2}, {"limcall", 8}, {"aliasprobe", 8}, {"ascbuild", 3}, {"requery", 1}},
-	"C16": {{"nilcall", 4}, {"aliasprobe", 3}, {"bulkkeys", 4}, {"assocwrite", 1}, {"requery", 1}},
+	"C14": {{"tiedvalues", 3}, {"requery", 2}, {"bulkkeys", 7}, {"aliasprobe", 2}, {"assocwrite", 2}},
+	"C15": {{"tiedvalues", 2}, {"nilcall", 2}, {"limcall", 8}, {"aliasprobe", 8}, {"ascbuild", 3}, {"requery", 1}},
+	"C16": {{"tiedvalues", 2}, {"nilcall", 4}, {"aliasprobe", 3}, {"bulkkeys", 4}, {"assocwrite", 1}, {"requery", 1}},
 	"C17": {{"requery", 3}, {"assocwrite", 2}, {"aliasprobe", 1}},
-	"C18": {{"aliasprobe", 9}, {"assocwrite", 5}, {"ascbuild", 2}, {"nilcall", 1}, {"bulkkeys", 1}, {"requery", 1}, {"bulkvals", 2}},
+	"C18": {{"tiedvalues", 1}, {"aliasprobe", 9}, {"assocwrite", 5}, {"ascbuild", 2}, {"nilcall", 1}, {"bulkkeys", 1}, {"requery", 1}, {"bulkvals", 2}},
 }
 
 func (s *seqRunner[V]) configure(prop string) {
@@ -1285,6 +1292,9 @@ func (s *seqRunner[V]) configure(prop string) {
 	}
 	s.obsCount = 1 + r.intn(4)
 	s.mode(obsNames[s.obsPolicy])
+	if s.tied {
+		s.mode("values:tied")
+	}
 	s.macros = macroTable[prop]
 	switch y := r.intn(10); {
 	case y < 2:
@@ -1410,6 +1420,8 @@ func (a *assocRunner[V]) macro(name string) bool {
 		return a.macroBulkKeys()
 	case "assocwrite":
 		return a.macroAssocWrite()
+	case "tiedkeys":
+		return a.macroTiedKeys()
 	}
 	return false
 }
@@ -1539,5 +1551,221 @@ func (a *assocRunner[V]) macroAssocWrite() bool {
 		f = "AGet"
 	}
 	s.do(f, i)
+	return true
+}
+
+// ---------- rank-equal distinct values (round 4: mode tiedvalues) ----------
+
+// genTied draws from a small domain in which DISTINCT Go values rank Equal under the default collator: the same number
+// as int / int8 / int16 / int64 (all "integer"), as uint / uint16 / uint32 / uint64 ("unsigned"), as float32 / float64
+// ("float").  CompareValues and Go's == tell them apart, RankValues does not.
+func genTied(r *rng) any {
+	k := r.intn(3)
+	switch r.intn(12) {
+	case 0, 10:
+		return int(k)
+	case 1:
+		return int8(k)
+	case 2:
+		return int16(k)
+	case 3, 11:
+		return int64(k)
+	case 4:
+		return uint(k)
+	case 5:
+		return uint16(k)
+	case 6:
+		return uint32(k)
+	case 7:
+		return uint64(k)
+	case 8:
+		return float32(k) + 0.5
+	default:
+		return float64(k) + 0.5
+	}
+}
+
+// tiedGroup returns n values of which at least two are distinct but rank Equal, in a drawn order
+func (s *seqRunner[V]) tiedGroup(n int) []V {
+	r := s.r
+	c := age.Collator[V]().Make()
+	out := make([]V, 0, n)
+	for len(out) < n {
+		out = append(out, s.tiedVal(r))
+	}
+	// make sure of one tie between distinct values: redraw the second value until it ranks Equal to the first and differs
+	for try := 0; try < 40 && n >= 2; try++ {
+		v := s.tiedVal(r)
+		tie := false
+		guard(func() { tie = c.RankValues(out[0], v) == age.EqualRank && !c.CompareValues(out[0], v) })
+		if tie {
+			out[1+r.intn(n-1)] = v
+			break
+		}
+	}
+	for k := n - 1; k > 0; k-- {
+		j := r.intn(k + 1)
+		out[k], out[j] = out[j], out[k]
+	}
+	return out
+}
+
+// Sets built by constructors from inputs that hold rank-equal distinct values, beside the same values added one by
+// one; searches for the tied values; Catalogs whose keys tie, then sorted / reversed
+func (s *seqRunner[V]) macroTiedValues() bool {
+	if s.tiedVal == nil {
+		return false
+	}
+	r := s.r
+	d := s.outer.(digester)
+	if s.assocMacro != nil && (hasOp(s.prop, "ASort") || hasOp(s.prop, "AKeys")) && r.chance(3, 5) {
+		if s.assocMacro("tiedkeys") {
+			return true
+		}
+	}
+	if len(s.pool)+3 > s.maxPool {
+		return false
+	}
+	vals := s.tiedGroup(3 + r.intn(5))
+	s.nextSlice = vals
+	if !s.do("NewSlice") {
+		s.nextSlice = nil
+		return false
+	}
+	sl := len(s.pool) - 1
+	wantSet := hasOp(s.prop, "AddValue") || hasOp(s.prop, "SAnd")
+	kind := kLst
+	if wantSet && r.chance(2, 3) {
+		kind = kSet
+	}
+	s.fromArray(d, kind, sl) // MakeFromArray
+	if s.hung {
+		return true
+	}
+	a := len(s.pool) - 1
+	steps := 1 + r.intn(3)
+	for ; steps > 0 && !s.hung; steps-- {
+		switch r.intn(5) {
+		case 0: // MakeFromSequence of a Set from what was just built
+			if !s.full() && wantSet {
+				s.fromSeq(d, kSet, a)
+			}
+		case 1: // the same values added one by one to an empty Set
+			if len(s.pool)+1 <= s.maxPool && wantSet {
+				s.makeEmpty(d, kSet)
+				e := len(s.pool) - 1
+				for _, v := range vals {
+					if s.hung {
+						break
+					}
+					v := v
+					s.forceVal = &v
+					s.do("AddValue", e)
+					s.forceVal = nil
+				}
+			}
+		case 2: // searches for a tied value
+			v := s.tiedVal(r)
+			s.forceVal = &v
+			s.do([]string{"GetIndex", "ContainsValue"}[r.intn(2)], a)
+			s.forceVal = nil
+		case 3:
+			if hasOp(s.prop, "ContainsAll") {
+				s.do([]string{"ContainsAll", "ContainsAny"}[r.intn(2)], a)
+			} else if hasOp(s.prop, "SortValues") {
+				s.do("SortValues", a)
+			}
+		default:
+			if hasOp(s.prop, "SortWith") {
+				s.do("SortWith", a)
+			} else {
+				v := s.tiedVal(r)
+				s.forceVal = &v
+				s.do("AddValue", a)
+				s.forceVal = nil
+			}
+		}
+	}
+	return true
+}
+
+// a Catalog (or Map) whose keys hold rank-equal distinct keys, values in a drawn order; then SortValues,
+// SortValuesWithRanker, ReverseValues, GetKeys, bulk lookups
+func (a *assocRunner[V]) macroTiedKeys() bool {
+	s := a.seqRunner
+	r := s.r
+	if s.tiedVal == nil || len(s.pool)+2 > s.maxPool {
+		return false
+	}
+	n := 2 + r.intn(5)
+	cand := s.tiedGroup(n + 2)
+	var keys []V
+	for _, k := range cand { // distinct map keys only (a repeated key would just overwrite)
+		dup := false
+		for _, x := range keys {
+			if x == k {
+				dup = true
+			}
+		}
+		if !dup && len(keys) < n {
+			keys = append(keys, k)
+		}
+	}
+	if len(keys) < 2 {
+		return false
+	}
+	vals := make([]V, len(keys))
+	for i := range vals {
+		if r.chance(1, 2) {
+			vals[i] = s.tiedVal(r)
+		} else {
+			vals[i] = s.genv(r)
+		}
+	}
+	if r.chance(1, 2) {
+		// values in DESCENDING order: associations whose keys tie are then out of order whatever the order of the keys
+		guard(func() {
+			age.Sorter[V]().Make().SortValues(vals)
+			for i, j := 0, len(vals)-1; i < j; i, j = i+1, j-1 {
+				vals[i], vals[j] = vals[j], vals[i]
+			}
+		})
+	}
+	s.nextKeys, s.nextVals = keys, vals
+	if !s.do("NewASlice") {
+		s.nextKeys, s.nextVals = nil, nil
+		return false
+	}
+	sl := len(s.pool) - 1
+	s.hintCat = r.chance(4, 5)
+	ok := s.do("FromArrayA", sl)
+	s.hintCat = false
+	if !ok || s.hung {
+		return true
+	}
+	c := len(s.pool) - 1
+	var follow []string
+	for _, f := range []string{"ASort", "ASort", "ASortWith", "AReverse", "AKeys", "AGet", "ASet", "AShuffle"} {
+		if hasOp(s.prop, f) {
+			follow = append(follow, f)
+		}
+	}
+	first := true
+	for k := 1 + r.intn(3); k > 0 && !s.hung && len(follow) > 0; k-- {
+		f := follow[r.intn(len(follow))]
+		if first && hasOp(s.prop, "ASort") && r.chance(1, 2) {
+			f = "ASort"
+		}
+		first = false
+		if f == "AKeys" && s.full() {
+			continue
+		}
+		if f == "AGet" || f == "ASet" {
+			key := keys[r.intn(len(keys))]
+			s.forceKey = &key
+		}
+		s.do(f, c)
+		s.forceKey = nil
+	}
 	return true
 }
